@@ -223,9 +223,12 @@ func (p *ServiceProcessor) RegisterRESTHandler(f interface{}, namespace, method 
 	if err != nil {
 		return xerrors.Errorf("regex: %v", err)
 	}
-	val0 := reflect.New(sh.msgType)
 
 	h := func(w http.ResponseWriter, r *http.Request) {
+		// The decoded argument must be private to the request: a value shared
+		// by all requests would keep the fields of earlier requests and
+		// would be written concurrently.
+		val0 := reflect.New(sh.msgType)
 		if r.Method != method {
 			http.Error(w, wrapJSONMsg("unsupported method: "+r.Method), http.StatusMethodNotAllowed)
 			return
